@@ -7,7 +7,7 @@ CHECKS = {
         'at most one Subscribe per handler, Started()-closed => Stop usable and Stopped non-nil (repaired code; refuted by a witness schedule for the pinned one = D4), '
         'a second Run returns an error, no negative WaitGroup; Stop is local at step level (a Stop call changes only its handler\'s cancel flag, a publisher is closed only by a handler '
         'that uses it, a subscription ends only via environment / own context / router closing); self-close: refuted for the pinned code by a reachable stuck state (D14), '
-        'witness for the repaired one, D15 (cancel on a router without handlers: refuted for the pinned watcher, witness for the repaired one). Tied to the code on every run: 28 forced schedules (park rules at router.life.* hooks), '
+        'witness for the repaired one, D15 (cancel on a router without handlers: refuted for the pinned watcher, witness for the repaired one). Tied to the code on every run: 32 forced schedules (park rules at router.life.* hooks), '
         'pause-point x client-action pairs and seeded random lifecycle programs on a real Router with scripted subscribers/publishers; the stamped hook log is replayed label by label '
         'on the model (emitted API events compared) and the property monitor judges the implementation\'s API history.'),
   note=('Self-close stuck-freedom (C10_self_close_never_stuck) and Stop-is-local (C10_stop_is_local, one reachable-state theorem) are proved; partial: no termination measure (liveness on the '
